@@ -278,6 +278,9 @@ func (g *gen) batchSizes(n, maxN int) []int {
 		default:
 			out[i] = 1 + g.r.Intn(maxN)
 		}
+		if out[i] > maxN {
+			out[i] = maxN
+		}
 		if out[i] < 1 {
 			out[i] = 1
 		}
